@@ -70,8 +70,34 @@ def mp_scenarios(tier):
     return out
 
 
+def _fault_differential(case):
+    """Single I/O faults in both synchronisation modes: outcome class and API-visible state must agree."""
+    from .c13 import sweep
+    a, b = [], []
+    sweep(case, ["EIO"], lambda info: [], "th", a)
+    sweep(case, ["EIO"], lambda info: [], "mp", b)
+    res = []
+    if len(a) != len(b):
+        res.append(({"kind": "fault-differential", "case": case[2], "what": "the two modes perform different operation sequences"}, {}))
+    for x, y in zip(a, b):
+        if x != y:
+            what = "outcome %s in threading mode, %s in multiprocessing mode" % (x[3], y[3]) if x[3] != y[3] else \
+                "same outcome but different store states in the two modes"
+            res.append(({"kind": "fault-differential", "case": case[2], "site": x[0], "mode": "persistent" if x[2] else "one-off",
+                         "what": what}, {"call": list(case[0]), "state": case[1], "th": x[:4], "mp": y[:4]}))
+    return len(a), res
+
+
 def main(tier):
     rep = common.Report("C16", tier, "model_checking")
+    from .. import fscen
+    from ..par import pmap
+    nf = 0
+    for cnt, res in pmap(_fault_differential, fscen.CASES + fscen.THOROUGH_CASES):
+        nf += cnt
+        for sig, det in res:
+            rep.violation(sig, det)
+    rep.coverage["fault_differential_runs_per_mode"] = nf
     run_spec(rep, differential(c05.C05Spec)(tier if tier == "thorough" else "quick"), "C05-alphabet-both-modes",
              time_cap=400 if tier == "quick" else 3000)
     run_spec(rep, differential(c11.C11Spec)("quick"), "C11-alphabet-both-modes", time_cap=400 if tier == "quick" else 3000)
